@@ -1113,6 +1113,17 @@ class Interp:
                     add(Aff.sym(x).sub(Aff.sym(y)).sub(lo_k))
                     if hi_k < (1 << 62):
                         add(Aff.sym(y).sub(Aff.sym(x)).add(hi_k))
+        # (viii) two places whose difference is the same expression over common symbols in every state
+        for ai in range(len(hsyms)):
+            for bi in range(ai + 1, len(hsyms)):
+                x, y = hsyms[ai], hsyms[bi]
+                d0 = sig[0][x].sub(sig[0][y])
+                if not all(z in common for z in d0.t):
+                    continue
+                if all(sig[i][x].sub(sig[i][y]) == d0 for i in range(1, len(states))):
+                    e = Aff.sym(x).sub(Aff.sym(y)).sub(d0)
+                    add(e)
+                    add(e.neg())
         # (vii) progress relative to the values recorded at the enclosing loop heads (needed by ranking arguments)
         anchors = {}
         for tk, snap in states[0].tags.items():
